@@ -27,7 +27,11 @@ SLACK = 0.5  # x T
 
 def stray_for(cfg, req, i, size=0):
     """Well-formed message of the session's version that does not match the outstanding request
-    (size > 0: carrying an OCTET STRING of that many octets - larger than the client's receive buffer for 4200)."""
+    (size > 0: carrying an OCTET STRING of that many octets - larger than the client's receive buffer for 4200;
+    size == -1: a well-formed message of the *other* community-based version with the right community and request-id)."""
+    if size == -1:
+        pdu = rb.build_pdu(rb.PDU_RESPONSE, req.request_id, 0, 0, [(SYS, rb.enc_int(1000 + i))])
+        return rb.build_community_msg(1 - req.version, req.community, pdu)
     val = rb.enc_octets(b"S" * size) if size else rb.enc_int(1000 + i)
     return drivers.reply_for(cfg, req, [(SYS, val)], request_id=(req.request_id + 1 + i) & 0x7FFFFFFF)
 
@@ -310,13 +314,13 @@ def judge_sync(strays, reply_at, out, el, T_SYNC=T_SYNC, oversize=False):
         # a datagram cut off by the receive buffer does not decode: ending the call with SnmpDecodeError is documented
         # (C04); only the time bound is judged
         return None
-    if reply_at is not None and reply_at <= 0.9 * T_SYNC:
+    if reply_at is not None and reply_at <= T_SYNC - min(0.1 * T_SYNC, 0.1):
         if out.kind != "ok":
             return "reply-lost", "matching reply sent at %.3f s (< T) but the call ended with %r after %.3f s" % (reply_at, out.brief(), el)
     elif reply_at is None or reply_at >= 1.5 * T_SYNC:
         if not (out.kind == "exc" and isinstance(out.exc, TimeoutError)):
             return "no-timeout", "no reply within T but the call ended with %r after %.3f s" % (out.brief(), el)
-        if el < 0.9 * T_SYNC:
+        if el < T_SYNC - min(0.1 * T_SYNC, 0.03):
             return "early-timeout", "TimeoutError after %.3f s, timeout is %.2f s" % (el, T_SYNC)
     return None
 
@@ -368,7 +372,7 @@ def work_sync(chunk):
                 k = len(case["strays"])
                 spacing = "burst" if k and case["strays"][0] != "flood" and case["strays"][0] < 0.1 * T_SYNC else ("flood" if k and case["strays"][0] == "flood" else "spaced")
                 res.violation(
-                    "sync/%s/%s/strays=%s%s/reply=%s%s" % (cfg.version, v[0], ("%d-%s" % (k, spacing)) if k else "0", "-oversize" if size else "", _rclass(case["reply_at"], T), "/T=%.1f" % T if T != T_SYNC else ""),
+                    "sync/%s/%s/strays=%s%s/reply=%s%s" % (cfg.version, v[0], ("%d-%s" % (k, spacing)) if k else "0", ("-oversize" if size > 0 else "-other-version") if size else "", _rclass(case["reply_at"], T), "/T=%.1f" % T if T != T_SYNC else ""),
                     "strays at %s s, reply at %s s: %s (confirmed on 3 re-runs)" % ([x if isinstance(x, str) else round(x, 3) for x in case["strays"]], case["reply_at"], v[1]),
                     case,
                 )
@@ -436,7 +440,7 @@ def run(tier):
     rec.rule = (
         "arrival schedules: k in {0,1,2,3} strays at every combination of spacings {0, T/2, 0.8T, 0.999T} (and k=5 uniform) x reply at {never, ~0, T/4, between strays, just after the last "
         "stray, 0.999T, 1.001T, 1.7T} x {v1,v2c,v3} on the async client in virtual time (exact); sync client on the real clock: k<=3 strays at 0.8T spacing and bursts of 5 at 0.02T x reply "
-        "at {0.5T, 0.9T, 1.7T, never}, T=0.2 s, bound 1.5T; a flood of strays across the deadline; strays larger than the receive buffer; T = 1.3 s (t: 2.25 s) with strays early and late; sequences of 2-3 calls on one session (a call that skipped strays and timed out, then a call whose reply arrives at T/2; a successful call "
+        "at {0.5T, 0.9T, 1.7T, never}, T=0.2 s, bound 1.5T; a flood of strays across the deadline; strays larger than the receive buffer and strays of the other SNMP version (time bound only); T = 1.3 s (t: 2.25 s) with strays early and late; T = 4.3 s (t: 8.6 s; beyond 2^32 ns) against a silent agent (TimeoutError not before T) and with a late reply; sequences of 2-3 calls on one session (a call that skipped strays and timed out, then a call whose reply arrives at T/2; a successful call "
         "after a stray, then silence) and v3 session entry against a silent agent (TimeoutError, in time). Every schedule is distinct."
     )
     rec.assume(
@@ -462,6 +466,15 @@ def run(tier):
     for cfg in cfgs[:3]:
         for strays, r in (([0.6 * T_SYNC, 1.2 * T_SYNC, 1.8 * T_SYNC, 2.4 * T_SYNC], None), ([0.3 * T_SYNC], 0.6 * T_SYNC), (["flood", 0.5 * T_SYNC, 1.3 * T_SYNC], None)):
             scases.append({"driver": "sync", "cfg": cfg.describe(), "strays": strays, "reply_at": r, "size": 4200})
+    # well-formed messages of the other SNMP version (documented: SnmpDecodeError; judged by the time bound only)
+    for cfg in cfgs[:2]:
+        for strays, r in (([0.6 * T_SYNC, 1.2 * T_SYNC, 1.8 * T_SYNC, 2.4 * T_SYNC], None), (["flood", 0.5 * T_SYNC, 1.3 * T_SYNC], None)):
+            scases.append({"driver": "sync", "cfg": cfg.describe(), "strays": strays, "reply_at": r, "size": -1})
+    # time-outs above 2^32 ns (the nanosecond count no longer fits 32 bits)
+    # (a timer never fires early, so the silent agent is the sharp case; long waits overshoot by a few per cent on this host)
+    for T_long in (4.3, 8.6) if thorough else (4.3,):
+        scases.append({"driver": "sync", "cfg": Cfg("v2c").describe(), "strays": [], "reply_at": None, "T": T_long})
+        scases.append({"driver": "sync", "cfg": Cfg("v2c").describe(), "strays": [0.5], "reply_at": T_long - 0.5, "T": T_long})
     # time-outs longer than a second (whole seconds and fraction must both count)
     for T_long in (1.3, 2.25) if thorough else (1.3,):
         for strays, r in (([0.1], 0.55 * T_long), ([0.1, 0.2], None), ([], 0.8 * T_long), ([0.85 * T_long], None)):
